@@ -436,7 +436,10 @@ def core_only_builds(prop, tier, seed):
     t0 = time.time()
     res = {}
     for label, args in (("no-default-features, sysroot = core only", ["--no-default-features", "-Zbuild-std=core"]),
-                        ("features = alloc, sysroot = core + alloc", ["--no-default-features", "--features", "alloc", "-Zbuild-std=core,alloc"])):
+                        ("features = alloc, sysroot = core + alloc", ["--no-default-features", "--features", "alloc", "-Zbuild-std=core,alloc"]),
+                        # optimised builds too: code under cfg(not(debug_assertions)) exists only there
+                        ("no-default-features, sysroot = core only, release profile", ["--release", "--no-default-features", "-Zbuild-std=core"]),
+                        ("features = alloc, sysroot = core + alloc, release profile", ["--release", "--no-default-features", "--features", "alloc", "-Zbuild-std=core,alloc"])):
         cmd = ["cargo", "+nightly", "build", "--lib", "--offline", "--target", "x86_64-unknown-linux-gnu",
                "--target-dir", os.path.join(cc.TARGET, "core-only")] + args
         p = subprocess.run(cmd, cwd=cc.REPO, env=cc.ENV, stdout=subprocess.PIPE, stderr=subprocess.STDOUT, text=True)
@@ -448,7 +451,7 @@ def core_only_builds(prop, tier, seed):
             or ("(which `alloc` depends on)" in out) or ("(which `std` depends on)" in out)
         if in_crate:
             os.makedirs(cc.REPLAYS, exist_ok=True)
-            path = os.path.join(cc.REPLAYS, "C17-build-" + ("core" if "core only" in label else "alloc") + ".log")
+            path = os.path.join(cc.REPLAYS, "C17-build-" + ("core" if "core only" in label else "alloc") + ("-release" if "release" in label else "") + ".log")
             open(path, "w").write("command: " + " ".join(cmd) + "\n(cwd /repo)\n\n" + out)
             cc.log("\n".join(out.splitlines()[-30:]))
             cc.log(f"the crate does not build with {label}")
